@@ -56,6 +56,19 @@ class S:
         self.patch = patch
 
 
+class B:
+    """An independently written behaviour-preserving refactor kept under /verif/benign/<name>/patch.diff (probe output identical,
+    baseline tests pass): every check must stay silent on it."""
+    expect = 'silent'
+    mention = None
+    rule = None
+    file = None
+
+    def __init__(self, name, patch):
+        self.name = 'benign-refactor-' + name
+        self.patch = patch
+
+
 def _rx(old):
     parts = [re.escape(p) for p in old.split()]
     return re.compile(r'\s+'.join(parts))
@@ -88,10 +101,10 @@ def run_variant(pid, v, base):
     d = tempfile.mkdtemp(prefix='vsa_%s_' % pid, dir=base)
     try:
         copy_tree(d)
-        if isinstance(v, S):
+        if isinstance(v, (S, B)):
             p = subprocess.run(['git', 'apply', '--whitespace=nowarn', v.patch], cwd=d, capture_output=True, text=True)
             if p.returncode != 0:
-                return ('skip', 'seed patch no longer applies: ' + (p.stderr or p.stdout).strip()[:120], '')
+                return ('skip', 'patch no longer applies: ' + (p.stderr or p.stdout).strip()[:120], '')
             return _run_check(pid, v, d)
         if isinstance(v, W):
             from .benign import transform
@@ -174,6 +187,12 @@ def run_for(pid, rep, seed):
             pth = os.path.join(sd, nm, 'patch.diff')
             if nm.startswith(pid) and os.path.exists(pth):
                 vs.append(S(nm, pth))
+    bd = os.path.join(VERIF, 'benign')
+    if os.path.isdir(bd):
+        for nm in sorted(os.listdir(bd)):
+            pth = os.path.join(bd, nm, 'patch.diff')
+            if os.path.exists(pth):
+                vs.append(B(nm, pth))
     rnd = random.Random(seed)
     rnd.shuffle(vs)
     base = tempfile.mkdtemp(prefix='vsa_base_')
